@@ -233,6 +233,8 @@ def run(prog, R):
                     return True
                 if r.kind == 'call' and depth < 3 and any(has_qlen(cx.prov(r.body, a), depth + 1) for a in r.data.args):
                     return True
+                if r.kind == 'bin' and depth < 3 and any(has_qlen(cx.prov(r.body, o), depth + 1) for o in r.data.rv.ops):
+                    return True
             return False
         same = sorted(r.describe() for r in hi) == sorted(r.describe() for r in cap)
         R.add('PAR-16', sc, 'priming-starts-at-0-and-covers-the-queue-length', lo.const_int() == 0 and has_qlen(hi), site(sc, agg.line),
